@@ -27,7 +27,8 @@ REQUIRED_THEOREMS = ['octet_lang', 'ipv4_lang', 'ipv4_sound', 'prefix_ipv4_unsou
                      'ipv4_rejects_unicode_digit_witness', 'ipv4_complete_unique', 'ipv4_reported_span',
                      'drop_zeros_same_address', 'drop_zeros_canonical', 'drop_zeros_groupwise', 'ip_extract_sound',
                      'ip_extract_v4_valid', 'guid_lang', 'guid_sound', 'guid_complete_unique_plain',
-                     'guid_complete_unique_braced', 'guid_extract_sound']
+                     'guid_complete_unique_braced', 'guid_extract_sound', 'hextet_lang', 'ipv6_lang',
+                     'ipv6_sound', 'ipv6_complete', 'drop_zeros_group_value']
 RULE = ('regex correspondence: per translated pattern, strings sampled from the pattern, mutated, embedded in contexts '
         'built from the pattern\'s own class boundaries; unit: drop_leading_zeros / extractors / score_guid on IP- and '
         'GUID-shaped strings with ellipsis boundary contexts; pipeline: boundary octets {0,9,10,99,100,199,200,249,250,255}^4 '
